@@ -55,6 +55,7 @@ def preload():
 NAMES = {"F": "FermionOperator", "Fa": "FermionOperator[n_spinorbitals=4,n_electrons=2,spin=0]",
          "oF": "openfermion.FermionOperator", "Q": "QubitOperator", "oQ": "openfermion.QubitOperator",
          "H": "QubitHamiltonian[JW,up_then_down=True]", "H2": "QubitHamiltonian[BK,up_then_down=True]",
+         "H3": "QubitHamiltonian[JW,up_then_down=False]", "H4": "QubitHamiltonian[BK,up_then_down=False]",
          "Hb": "QubitHamiltonian[bare]", "s": "scalar", None: ""}
 ATTRS = ("n_spinorbitals", "n_electrons", "spin", "mapping", "up_then_down")
 
@@ -76,6 +77,10 @@ def _new(cls):
         return QubitHamiltonian(mapping="JW", up_then_down=True)
     if cls == "H2":
         return QubitHamiltonian(mapping="BK", up_then_down=True)
+    if cls == "H3":
+        return QubitHamiltonian(mapping="JW", up_then_down=False)
+    if cls == "H4":
+        return QubitHamiltonian(mapping="BK", up_then_down=False)
     if cls == "Hb":
         return QubitHamiltonian()
     raise ValueError(cls)
@@ -224,7 +229,8 @@ def h_eq(env, L, R, pairs, canary=False):
         c = _new(R)
         c.terms = {t: (v + 1 if i == 0 else v) for i, (t, v) in enumerate(a.terms.items())}
         sa, sb = snapshot(a), snapshot(b)
-        expect_same = {L, R} not in ({"H", "H2"}, {"F", "Fa"})     # different annotations: documented to compare unequal
+        # different annotations: documented to compare unequal
+        expect_same = {L, R} not in ({"H", "H2"}, {"F", "Fa"}, {"H", "H3"}, {"H3", "H4"}, {"H2", "H4"}, {"H", "H4"})
         if canary:
             expect_same = not expect_same
         for other, expect, what in ((b, expect_same, "equal terms"), (c, False, "a different coefficient"))[:1 if canary else 2]:
@@ -441,7 +447,7 @@ def h_mf_mul(env, n, cases, real=False, canary=False):
             check_unchanged(env, sb, mb, "MultiformOperator.__mul__: right operand unchanged")
 
 
-def h_mf_commute(env, n, cases, canary=False):
+def h_mf_commute(env, n, cases, canary=False, after_compress=False):
     """do_commute(A, B): term-resolved[i] = term i of A commutes with every term of B; global = all of them
     (for operands with symbolic generic coefficients this is the same as [A, B] = 0 identically)"""
     import numpy as np
@@ -451,6 +457,10 @@ def h_mf_commute(env, n, cases, canary=False):
     for wa, wb in cases:
         ma = MultiformOperator.from_qubitop(_qop(wa, [1.0 + i for i in range(len(wa))]), n)
         mb = MultiformOperator.from_qubitop(_qop(wb, [2.0 + i for i in range(len(wb))]), n)
+        if after_compress:
+            # histories: the derived encodings must stay consistent after an in-place update of the operator
+            ma.compress(n_qubits=n)
+            mb.compress(n_qubits=n)
         ref_terms = [all(test(x, y) for y in wb) for x in wa]
         # cross-check of the oracle itself: the reference commutator vanishes iff all pairs commute
         comm = A.q_commutator({w: 1.0 + i for i, w in enumerate(wa)}, {w: 2.0 + 3 * i for i, w in enumerate(wb)})
@@ -551,7 +561,8 @@ def shapes(tier, seed):
             arith("qmix", "qubit", L, R, ("sub", "mul", "isub", "imul"), QUBIT_POOL, reject_ok=not REJECTION_IS_VIOLATION)
     arith("qmix", "qubit", "Q", "oQ", BIN, QUBIT_POOL, reject_ok=not REJECTION_IS_VIOLATION)
     # ==
-    for L, R in (("H", "Q"), ("H", "oQ"), ("Q", "H"), ("oQ", "H"), ("Hb", "Q"), ("H", "H"), ("H", "Hb"), ("H", "H2"), ("Q", "Q")):
+    for L, R in (("H", "Q"), ("H", "oQ"), ("Q", "H"), ("oQ", "H"), ("Hb", "Q"), ("H", "H"), ("H", "Hb"), ("H", "H2"), ("Q", "Q"),
+                 ("H3", "H3"), ("H", "H3"), ("H3", "H"), ("H3", "H4"), ("H4", "H2"), ("H3", "Hb"), ("H4", "H4")):
         name = f"qham/eq/{L},{R}"
         out.append(Shape(name, h_eq, dict(L=L, R=R, pairs=pick_pairs(QUBIT_POOL, 3 if tier == "quick" else 8, sub(name))), modules=MODS))
     for L, R in (("F", "F"), ("Fa", "Fa"), ("F", "Fa"), ("Fa", "F"), ("F", "oF"), ("oF", "F")):
@@ -613,6 +624,12 @@ def shapes(tier, seed):
     for i, (n, wa, wb) in enumerate(two):
         out.append(Shape(f"multiform/mul/n{n}/multi/{i:02d}", h_mf_mul, dict(n=n, cases=[(wa, wb)]), modules=MODS, max_paths=64))
     # commutation
+    asym = [((0, "X"), (1, "Z")), ((0, "Z"), (1, "X")), ((0, "Y"),), ((1, "X"),), ((0, "X"), (1, "Y")), ((1, "Z"),), ((0, "Z"),), ((0, "Y"), (1, "Z"))]
+    out.append(Shape("multiform/commute/n2/after-compress", h_mf_commute,
+                     dict(n=2, cases=[((a,), (b,)) for a in asym for b in asym] + [((asym[0], asym[2]), (asym[1], asym[3]))], after_compress=True), modules=MODS))
+    asym3 = [((0, "X"), (2, "Z")), ((0, "Z"), (1, "Y")), ((2, "X"),), ((0, "Y"), (1, "X"), (2, "Z"))]
+    out.append(Shape("multiform/commute/n3/after-compress", h_mf_commute,
+                     dict(n=3, cases=[((a,), (b,)) for a in asym3 for b in asym3], after_compress=True), modules=MODS))
     out.append(Shape("multiform/commute/n1/1x1", h_mf_commute, dict(n=1, cases=[((a,), (b,)) for a in w1 for b in w1]), modules=MODS))
     for i, wa in enumerate(w2):
         out.append(Shape(f"multiform/commute/n2/1x1/{i:02d}", h_mf_commute, dict(n=2, cases=[((wa,), (wb,)) for wb in w2]), modules=MODS))
